@@ -3,6 +3,7 @@ package strings
 import (
 	"context"
 	"math/rand"
+	"sync"
 	"time"
 
 	"github.com/MontFerret/ferret/pkg/runtime/core"
@@ -19,7 +20,20 @@ const (
 
 // randSrc is a global variable because of this issue
 // https://github.com/golang/go/issues/8926
-var randSrc = rand.NewSource(time.Now().UnixNano())
+// A rand.Source is not safe for concurrent use: randMu guards it, because
+// programs calling RANDOM_TOKEN may run concurrently.
+var (
+	randMu  sync.Mutex
+	randSrc = rand.NewSource(time.Now().UnixNano())
+)
+
+// nextRandInt63 draws the next value from the shared source.
+func nextRandInt63() int64 {
+	randMu.Lock()
+	defer randMu.Unlock()
+
+	return randSrc.Int63()
+}
 
 // RANDOM_TOKEN generates a pseudo-random token string with the specified length. The algorithm for token generation should be treated as opaque.
 // @param {Int} len - The desired string length for the token. It must be greater than 0 and at most 65536.
@@ -40,9 +54,9 @@ func RandomToken(_ context.Context, args ...core.Value) (core.Value, error) {
 	size := args[0].(values.Int)
 	b := make([]byte, size)
 
-	for i, cache, remain := size-1, randSrc.Int63(), letterIdxMax; i >= 0; {
+	for i, cache, remain := size-1, nextRandInt63(), letterIdxMax; i >= 0; {
 		if remain == 0 {
-			cache, remain = randSrc.Int63(), letterIdxMax
+			cache, remain = nextRandInt63(), letterIdxMax
 		}
 
 		if idx := int(cache & letterIdxMask); idx < len(letterBytes) {
